@@ -114,32 +114,41 @@ func c17r1(c *Ctx, id string) {
 			envs = append(envs, envStore{fn, st, path})
 		})
 	}
+	// environment overrides: the stores that are not zero-guarded must target the two membership numbers; what they
+	// do is decided by evaluating the function that reads the environment (helpers inlined) over every combination
+	// of (field set in file or not) × (variable set or not) × (variable an integer or not)
+	envFields := map[string]string{"recv.Dcp.Group.Membership.TotalMembers": "TOTALMEMBERS", "recv.Dcp.Group.Membership.MemberNumber": "MEMBERNUMBER"}
 	for _, e := range envs {
 		construct := "env-override:" + strings.TrimPrefix(e.target, "recv.")
-		gs := guardsOf(e.st.Block())
-		var env string
-		okShape := true
-		for _, g := range gs {
-			v, pol := stripNot(g.Cond, g.Branch)
-			o := w.Origin(v)
-			switch {
-			case pol && strings.HasPrefix(o, "(call(os.Getenv)(const(") && strings.HasSuffix(o, ` != const(""))`):
-				env = o
-			case !pol && strings.HasSuffix(o, "#1 != const(nil))"):
-				// conversion error handled by panic
-			default:
-				okShape = false
-			}
-		}
-		val := w.Origin(e.st.Val)
-		okVal := env != "" && strings.HasPrefix(val, "call(strconv.Atoi)(call(os.Getenv)(const(") && strings.HasSuffix(val, "#0")
-		db := defaulted[e.target]
-		okAfter := db != nil && db.Idom() != nil && db.Idom().Dominates(e.st.Block()) && db != e.st.Block()
-		if okShape && okVal && okAfter {
-			c.OK(id, construct, e.st.Pos(), "overrides the file/default value whenever the variable is set: %s", val)
+		if _, ok := envFields[e.target]; ok {
+			c.OK(id, construct, e.st.Pos(), "a store outside the zero-guarded defaults, to a field with an environment override (its behaviour is decided by env-semantics)")
 		} else {
-			c.Fail(id, construct, e.st.Pos(), "store to %s ← %s is neither a zero-guarded default nor a clean environment override (guarded only by Getenv≠\"\": %v, value from Atoi(Getenv): %v, after the default: %v) — the environment must take precedence over file values", e.target, val, okShape, okVal, okAfter)
+			c.Fail(id, construct, e.st.Pos(), "store to %s ← %s is neither a zero-guarded default nor an environment override of the member number / group size", e.target, w.Origin(e.st.Val))
 		}
+	}
+	var envFn *ssa.Function
+	nEnvFn := 0
+	for fn := range callees {
+		if fn == ad {
+			continue
+		}
+		reads := false
+		for f := range w.syncCallees(fn, 3, false) {
+			allInstrs(f, func(in ssa.Instruction) {
+				if cc := callOf(in); cc != nil && isStaticCall(cc, "os", "", "Getenv") {
+					reads = true
+				}
+			})
+		}
+		if reads {
+			envFn = fn
+			nEnvFn++
+		}
+	}
+	if nEnvFn != 1 {
+		c.Undecided(id, "env-semantics", ad.Pos(), "%d defaulting steps read the environment (expected one)", nEnvFn)
+	} else {
+		c17env(c, id, envFn, envFields)
 	}
 	if len(envs) != 2 {
 		c.Fail(id, "env-overrides", ad.Pos(), "%d stores are not zero-guarded (expected exactly the two environment overrides of member number and group size)", len(envs))
@@ -456,25 +465,180 @@ func c17r4(c *Ctx, id string) {
 	okAll := strings.Contains(no, "FindAllStringSubmatch)(") && strings.Contains(no, ", const(-1))[") && strings.HasSuffix(no, "][const(1)]")
 	c.Check(okAll, id, "all-matches", repl.Pos(), "name ranges over submatch 1 of all matches", "name ← "+no+", expected submatch[1] of every match (FindAllStringSubmatch(…, -1))")
 	// the substituted text is loop-carried and finally parsed
+	// (the phi may be split over the loop header and the join after the if: leaves are taken through nested phis)
 	okCarried := false
 	if phi, ok := unwrap(cc.Args[0]).(*ssa.Phi); ok {
-		hasInit, hasUpd := false, false
-		for _, e := range phi.Edges {
-			if strings.HasPrefix(w.Origin(e), "call(os.ReadFile)(") {
+		hasInit, hasUpd, other := false, false, false
+		for _, e := range phiLeaves(phi) {
+			switch {
+			case strings.HasPrefix(w.Origin(e), "call(os.ReadFile)("):
 				hasInit = true
-			}
-			if unwrap(e) == ssa.Value(repl) {
+			case e == ssa.Value(repl):
 				hasUpd = true
+			default:
+				other = true
 			}
 		}
-		// last Unmarshal consumes the phi
+		// last Unmarshal consumes the same accumulated text
 		allInstrs(fn, func(in ssa.Instruction) {
 			if call, ok := in.(*ssa.Call); ok && call.Common().StaticCallee() != nil && call.Common().StaticCallee().Name() == "Unmarshal" {
-				if unwrap(call.Common().Args[0]) == ssa.Value(phi) {
-					okCarried = hasInit && hasUpd
+				if p2, ok := unwrap(call.Common().Args[0]).(*ssa.Phi); ok && sameLeaves(phiLeaves(p2), phiLeaves(phi)) {
+					okCarried = hasInit && hasUpd && !other
 				}
 			}
 		})
 	}
 	c.Check(okCarried, id, "parsed-text", repl.Pos(), "substitutions accumulate over the file text and the result is what is unmarshalled", "the substituted text is not the accumulated file content that is finally parsed")
+}
+
+// phiLeaves: the non-phi values a phi can take, through nested phis and conversions.
+func phiLeaves(v ssa.Value) []ssa.Value {
+	seen := map[ssa.Value]bool{}
+	var out []ssa.Value
+	var rec func(v ssa.Value)
+	rec = func(v ssa.Value) {
+		v = unwrap(v)
+		if seen[v] {
+			return
+		}
+		seen[v] = true
+		if p, ok := v.(*ssa.Phi); ok {
+			for _, e := range p.Edges {
+				rec(e)
+			}
+			return
+		}
+		out = append(out, v)
+	}
+	rec(v)
+	return out
+}
+
+func sameLeaves(a, b []ssa.Value) bool {
+	if len(a) != len(b) {
+		return false
+	}
+	m := map[ssa.Value]bool{}
+	for _, x := range a {
+		m[x] = true
+	}
+	for _, x := range b {
+		if !m[x] {
+			return false
+		}
+	}
+	return true
+}
+
+// c17env decides the environment overrides of the membership numbers by exhaustive abstract evaluation.
+func c17env(c *Ctx, id string, fn *ssa.Function, envFields map[string]string) {
+	recv := fn.Params[0].Name()
+	type ov struct{ field, env, envSym, emptyAtom, failChoice, atoiAtom string }
+	var ovs []ov
+	var ints, bools []string
+	choices := map[string]int{}
+	for _, f := range sortedKeys(envFields) {
+		field := recv + strings.TrimPrefix(f, "recv")
+		o := ov{field: field, env: envFields[f]}
+		o.envSym = "env:" + o.env
+		o.emptyAtom = fmt.Sprintf("%s==%q", o.envSym, "")
+		o.failChoice = "atoiFails:" + o.env
+		o.atoiAtom = "atoi(" + o.envSym + ")"
+		ovs = append(ovs, o)
+		ints = append(ints, field)
+		bools = append(bools, o.emptyAtom)
+		choices[o.failChoice] = 2
+	}
+	// the other fields the step defaults: integers against 0, strings against ""
+	allInstrs(fn, func(in ssa.Instruction) {
+		b, ok := in.(*ssa.BinOp)
+		if !ok || (b.Op != token.EQL && b.Op != token.NEQ) {
+			return
+		}
+		o := c.W.Origin(b.X)
+		if !strings.HasPrefix(o, "recv.") {
+			return
+		}
+		name := recv + strings.TrimPrefix(o, "recv")
+		for _, x := range ovs {
+			if x.field == name {
+				return
+			}
+		}
+		switch t := b.X.Type().Underlying().(type) {
+		case *types.Basic:
+			if t.Info()&types.IsString != 0 {
+				bools = append(bools, fmt.Sprintf("%s==%q", name, ""))
+			} else if t.Info()&types.IsInteger != 0 {
+				ints = append(ints, name)
+			}
+		}
+	})
+	envOf := func(name string) *ov {
+		for i := range ovs {
+			if strings.Contains(name, ovs[i].env) {
+				return &ovs[i]
+			}
+		}
+		return nil
+	}
+	groups := []Group{{Atoms: append(ints, "#0")}}
+	h := &Harness{Fn: fn, Groups: groups, Bools: bools, Choices: choices, Quiet: quietLog,
+		Oracle: func(st *State, name string, args []AV, res *types.Tuple) ([]AV, bool) {
+			switch name {
+			case "os.Getenv":
+				if s, ok := args[0].(avStr); ok && s.isC {
+					if o := envOf(s.conc); o != nil {
+						return []AV{avStr{sym: o.envSym}}, true
+					}
+				}
+			case "strconv.Atoi":
+				if s, ok := args[0].(avStr); ok && !s.isC {
+					for _, o := range ovs {
+						if s.sym == o.envSym {
+							if st.C(o.failChoice) == 1 {
+								return []AV{avInt{}, avIface{sym: "atoiErr"}}, true
+							}
+							return []AV{avInt{atom: o.atoiAtom}, avIface{isNil: true}}, true
+						}
+					}
+				}
+			case "errors.New":
+				return []AV{avIface{sym: "configErr"}}, true
+			}
+			return nil, false
+		},
+	}
+	c.oae(id, "env-semantics@"+fname(fn), fn.Pos(), h, func(st *State, out *Outcome) string {
+		wantPanic := false
+		for _, o := range ovs {
+			if !st.B(o.emptyAtom) && st.C(o.failChoice) == 1 {
+				wantPanic = true
+			}
+		}
+		if out.Panicked != wantPanic {
+			return fmt.Sprintf("stops the process: %v, expected %v (⇔ a set variable is not an integer)", out.Panicked, wantPanic)
+		}
+		if wantPanic {
+			return ""
+		}
+		for _, o := range ovs {
+			fin := out.Final(o.field)
+			switch {
+			case !st.B(o.emptyAtom):
+				if v, ok := fin.(avInt); !ok || v.atom != o.atoiAtom {
+					return fmt.Sprintf("%s ends as %s although %s is set; expected the variable's integer value", o.field, avString(fin), o.env)
+				}
+			case st.Eq(o.field, "#0"):
+				if v, ok := fin.(avInt); !ok || v.atom != "" || v.conc == 0 {
+					return fmt.Sprintf("%s ends as %s with nothing configured; expected a non-zero default", o.field, avString(fin))
+				}
+			default:
+				if fin != nil {
+					return fmt.Sprintf("%s is overwritten with %s although it is configured and %s is not set", o.field, avString(fin), o.env)
+				}
+			}
+		}
+		return ""
+	}, "per membership number: variable set ⇒ field = Atoi(variable), or the process stops when it is not an integer; variable unset ⇒ configured value kept, else a non-zero default")
 }
